@@ -21,6 +21,16 @@ func (e *iso9660encoder) padLastSector() {
 	}
 }
 
+// appendDirectoryRecord appends a record of a directory. A record ends in the sector where it begins
+// (ECMA-119 6.8.1.1), the rest of a sector it does not fit into stays zero.
+func (e *iso9660encoder) appendDirectoryRecord(de directoryEntry) {
+	if e.size()%sectorSize+de.size() > sectorSize {
+		e.padLastSector()
+	}
+
+	de.encode(e)
+}
+
 func (e *iso9660encoder) appendByte(b byte) {
 	*e = append(*e, b)
 }
